@@ -168,7 +168,7 @@ func gen(c *hx.Ctx) {
 		}
 	}
 	// 4. random multi-task scenarios
-	for i := 0; i < c.Budget(700, 20000); i++ {
+	for i := 0; i < c.Budget(700, 12000); i++ {
 		n := 1 + c.Rng.Intn(4)
 		nt := 2 + c.Rng.Intn(c.Budget(7, 9))
 		ng := 1 + c.Rng.Intn(3)
